@@ -45,6 +45,8 @@ impl CleanMarkerStore {
     pub fn new_in(paths: &WalPathManager, file_name: &str) -> std::io::Result<Self> {
         paths.ensure_root()?;
         let path = paths.index_path(file_name);
+        #[cfg(walrus_verif)]
+        let _ = crate::wal::verif::io_check(crate::wal::verif::IoKind::ReadFile, &path.to_string_lossy(), "", 0, 0);
         let map = if path.exists() {
             let bytes = fs::read(&path)?;
             if bytes.is_empty() {
@@ -95,8 +97,14 @@ impl CleanMarkerStore {
                 format!("clean marker serialize failed: {:?}", e),
             )
         })?;
+        #[cfg(walrus_verif)]
+        crate::wal::verif::io_check_data(crate::wal::verif::IoKind::TmpWrite, &tmp_path, 0, &bytes)?;
         fs::write(&tmp_path, &bytes)?;
+        #[cfg(walrus_verif)]
+        crate::wal::verif::io_check(crate::wal::verif::IoKind::TmpFsync, &tmp_path, "", 0, 0)?;
         fs::File::open(&tmp_path)?.sync_all()?;
+        #[cfg(walrus_verif)]
+        crate::wal::verif::io_check(crate::wal::verif::IoKind::Rename, &tmp_path, path, 0, 0)?;
         fs::rename(&tmp_path, path)?;
         Ok(())
     }
